@@ -4,6 +4,18 @@ import json, os
 V = os.path.dirname(os.path.dirname(os.path.abspath(__file__)))
 
 CLAIMS = {
+ "C01": dict(
+   text="Theorems at ℚ for keyframe lists of any length (repeated positions, any presence mask, per-keyframe easings): from_keyframes builds exactly the declarative CSS reading (defining keyframes with carried easings, synthetic 0% default frame iff needed, trailing 100% frame iff needed; by induction over the fold); the rustc binary search meets the contract the lookup needs (loop invariant with fuel); the lookup theorem: for every admissible master index, value_at interpolates between the two adjacent frames bracketing the position; hence at a position strictly between consecutive frames the value is lerp of their values at the eased fraction with the start frame's easing, with/without a substituted start value; default-start and hold-end corollaries; omitted keyframes irrelevant; update writes exactly the sub-timeline value. Correspondence: derive-built timelines (3 shapes) bit-exact on boundary-directed times; spec oracle: implementation vs the CSS reading evaluated in exact arithmetic.",
+   note="Keyframes sorted with positions in [0,1] (the builder sorts: C11). Exact arithmetic in theorems; binary32 validated bit-exactly. Trusted: Lean kernel, transcription of rustc's binary_search_by, sampled tie.",
+   technique="Lean 4 theorems (fold induction, search loop invariant, bracket lookup theorem) + bit-exact correspondence + exact-arithmetic CSS oracle", design="§7 C01"),
+ "C02": dict(
+   text="Theorems at ℚ: when the position coincides with a frame of the property and no other frame sits there, the value is exactly that frame's value for every admissible search result (uses ease(0)=0, ease(1)=1 from C13 and exact lerp endpoints for floats and in-range integers from C14); position is 0% with override enabled at any time up to the delay; at delay+k·cycle the end position is shown before any wrap (hold rule); exactly at the total duration the position already equals the terminal one; after it the evaluation is constant, terminal 100% (0% when reversing), override off. Correspondence: exact-position oracles on dyadic configurations (expect directives on the implementation) and terminal-hold ladders, integer and float fields.",
+   note="Float 'few ulps' clause: exact in ℚ, validated bit-exactly in binary32 on configurations where the f32 position is exact. Trusted: Lean kernel, sampled tie.",
+   technique="Lean 4 theorems (corollaries of the lookup theorem + C03/C13/C14) + exact-equality oracles on the implementation", design="§7 C02"),
+ "C10": dict(
+   text="Theorems: (generic in the number system) whenever prepare_frame disables the override — reverse pass, later cycles, after the end, characterised exactly — a timeline and its start_with twin produce identical updates; beyond the first segment the value does not depend on the substituted value even when enabled; under NoDupAtZero and endpoint-fixing easings the value up to the delay is exactly v. The unrestricted start-value clause is refuted by a kernel-checked witness (two 0% keyframes; known finding F-C10). Correspondence: twin ops on every generated timeline, expect-oracles for the start value, F-C10 instances recognised only for duplicated 0% keyframes.",
+   note="F-C10 recorded, not repaired. Trusted: Lean kernel, sampled tie.",
+   technique="Lean 4 theorems (override plumbing, lookup theorem) + twin relational oracle + kernel-checked refutation", design="§7 C10"),
  "C08": dict(
    text="Theorems, generic in the number system, over the model of the derive-generated update: update only ever sets indices of animated fields (any time, any phase), a timeline with no keyframes modifies nothing, an animated field without any keyframe value is never written (its sub-timeline is empty), merged timelines likewise, and by induction over arbitrary advance/set_state histories a state animator never touches a field no timeline animates. Correspondence: sentinel values in every non-animated slot and in non-#[animate] fields of three derived shapes (all-fields, #[animate] subset, remote proxy), across all phases and extreme times; expect-oracles on the implementation output.",
    note="Trusted: Lean kernel; hand-written model tied by bit-exact differential runs (sampled). The struct-shape rule of derive(Animate) itself is C17.",
